@@ -1,36 +1,1232 @@
-// Package c07 (skeleton for probing)
+// Package c07: non-local exits reach their target and run every cleanup
+// exactly once. Exhaustive enumeration of nestings of context forms with one
+// exit placed at every body position, executed on slip and compared with the
+// independent reference evaluator verif/ref/eval.
 package c07
 
 import (
+	"errors"
+	"fmt"
+	"os"
+	"path/filepath"
+	"strconv"
 	"strings"
+	"sync"
+	"sync/atomic"
+	"time"
 
 	"github.com/ohler55/slip"
+	"github.com/ohler55/slip/pkg/gi"
+
 	"verif/engine"
 	"verif/lisp"
+	"verif/ref/eval"
 )
 
 func init() {
 	engine.Register(&engine.Prop{
-		ID:        "C07",
-		Level:     "exploration",
-		Enumerate: func(tier string, emit func(string)) {},
+		ID:    "C07",
+		Level: "exploration",
+		Rule: "every nesting (outermost first) of context forms up to the tier's depth, the innermost body slot filled with one exit " +
+			"(fall through / return-from each visible block / return / return-from the enclosing function / go forward and backward to each " +
+			"visible tagbody / error of four classes), the slot placed at every body position (first, middle, last; loops also on the 2nd " +
+			"iteration); trace markers before and after every slot, in every cleanup, handler, loop result form and unselected branch; " +
+			"program text is rendered by the harness writer, run through ReadString+Eval in a fresh scope, and value, ordered trace, " +
+			"condition class, mutex state (TryLock from Go) and stream state (os.File closed, from Go) are compared with ref/eval; a case is " +
+			"non-trivial when a non-normal exit crosses at least one intervening form on the way to its target",
+		Assumptions: []string{
+			"ref/eval is the oracle (lexical targets by construction; exits as Go panics)",
+			"exits are placed in body positions only (never in argument, test, binding-init or cleanup positions)",
+			"the primary value of ignore-errors after it caught an error is not pinned down (wild)",
+			"the 'original condition class' of an error form is the class slip itself reports when that form is evaluated alone at top level",
+			"tagbody tags are integers in the main alphabet (symbol tags are a separate context kind, see tagbody-sym) so that a defect in tag handling does not mask the rest",
+		},
+		Enumerate: enumerate,
 		Exec:      exec,
+		Required: []string{
+			"exit-crossed>=1-form", "exit-crossed>=2-forms", "cleanup-on-return", "cleanup-on-go", "cleanup-on-error",
+			"mutex-on-exit-path", "stream-on-exit-path", "go-backward", "go-forward", "return-shadowed-block",
+			"error-handled", "error-unhandled", "exit-on-later-iteration", "exit-through-function", "cleanup-nested>=2",
+		},
+		Bound:         bound,
+		Selftest:      selftest,
+		CaseDeadlineS: 8,
 	})
 }
 
+// ---------------------------------------------------------------- alphabet
+
+type kindInfo struct {
+	name      string
+	sig       string   // name used in signatures
+	positions []string // slot positions
+}
+
+var bodyPos = []string{"f", "m", "l"}
+var loopPos = []string{"f", "m", "l", "m2", "l2"}
+
+var kinds = []kindInfo{
+	{"block-a", "block", bodyPos},
+	{"block-b", "block", bodyPos},
+	{"block-nil", "block", bodyPos},
+	{"tagbody", "tagbody", bodyPos},
+	{"unwind-protect", "unwind-protect", []string{"p"}},
+	{"let", "let", bodyPos},
+	{"let*", "let*", bodyPos},
+	{"progn", "progn", bodyPos},
+	{"when", "when", bodyPos},
+	{"unless", "unless", bodyPos},
+	{"cond", "cond", bodyPos},
+	{"if", "if", []string{"t", "e"}},
+	{"dolist", "dolist", loopPos},
+	{"dotimes", "dotimes", loopPos},
+	{"do", "do", loopPos},
+	{"defun", "defun", bodyPos},
+	{"lambda", "lambda", bodyPos},
+	{"defun-in", "defun-in", bodyPos}, // (defun f () BODY) (f) spliced into the parent's body: a named function that is lexically inside
+	{"with-mutex-lock", "with-mutex-lock", bodyPos},
+	{"ignore-errors", "ignore-errors", bodyPos},
+	{"recover", "recover", bodyPos},
+	{"with-open-file", "with-open-file", bodyPos},
+	{"tagbody-sym", "tagbody-sym", bodyPos},
+}
+
+var kindByName = func() map[string]*kindInfo {
+	m := map[string]*kindInfo{}
+	for i := range kinds {
+		m[kinds[i].name] = &kinds[i]
+	}
+	return m
+}()
+
+// canonical slot position of a kind (used for the outer levels of restricted depths)
+func canonPos(k *kindInfo) string {
+	switch k.positions[0] {
+	case "p":
+		return "p"
+	case "t":
+		return "t"
+	}
+	return "m"
+}
+
+type ctx struct {
+	kind *kindInfo
+	pos  string
+}
+
+type program struct {
+	ctxs []ctx
+	exit string
+}
+
+var errorExits = []string{"err-error", "err-div", "err-unbound", "err-type"}
+
+func isLoop(k *kindInfo) bool { return k.name == "dolist" || k.name == "dotimes" || k.name == "do" }
+func isTagbody(k *kindInfo) bool {
+	return k.name == "tagbody" || k.name == "tagbody-sym"
+}
+
+// boundary returns the index of the innermost defun (lexical boundary), -1 if none.
+func boundary(ctxs []ctx) int {
+	for i := len(ctxs) - 1; 0 <= i; i-- {
+		if ctxs[i].kind.name == "defun" {
+			return i
+		}
+	}
+	return -1
+}
+
+// fnIndex returns the innermost named function whose block the slot can see, -1 if none.
+func fnIndex(ctxs []ctx) int {
+	b := boundary(ctxs)
+	for i := len(ctxs) - 1; 0 <= i && b <= i; i-- {
+		if n := ctxs[i].kind.name; n == "defun" || n == "defun-in" {
+			return i
+		}
+	}
+	return -1
+}
+
+// validNesting: a defun-in needs a parent with a statement body to be spliced into.
+func validNesting(ctxs []ctx) bool {
+	for i, c := range ctxs {
+		if c.kind.name != "defun-in" {
+			continue
+		}
+		if i == 0 {
+			return false
+		}
+		par := ctxs[i-1]
+		if len(par.kind.positions) < 3 || (par.pos != "f" && par.pos != "m" && par.pos != "l") {
+			return false
+		}
+	}
+	return true
+}
+
+// validExits lists every exit kind that is lexically valid in the innermost slot.
+func validExits(ctxs []ctx, errs []string) (out []string) {
+	out = append(out, "norm")
+	b := boundary(ctxs)
+	seenA, seenB, seenNil := false, false, false
+	for i := len(ctxs) - 1; b < i; i-- {
+		switch n := ctxs[i].kind.name; {
+		case n == "block-a" && !seenA:
+			seenA = true
+		case n == "block-b" && !seenB:
+			seenB = true
+		case (n == "block-nil" || isLoop(ctxs[i].kind)) && !seenNil:
+			seenNil = true
+		}
+	}
+	if seenA {
+		out = append(out, "rf-a")
+	}
+	if seenB {
+		out = append(out, "rf-b")
+	}
+	if seenNil {
+		out = append(out, "ret")
+	}
+	if 0 <= fnIndex(ctxs) {
+		out = append(out, "rf-fn")
+	}
+	for i := len(ctxs) - 1; b < i; i-- {
+		if isTagbody(ctxs[i].kind) {
+			out = append(out, fmt.Sprintf("go-%df", i), fmt.Sprintf("go-%db", i))
+		}
+	}
+	out = append(out, errs...)
+	return
+}
+
+// target returns the index of the context the exit must transfer control to
+// (-1 = top level for an unhandled error, -2 = no transfer) and the exit's
+// signature name.
+func target(p *program) (idx int, sig string) {
+	b := boundary(p.ctxs)
+	find := func(pred func(k *kindInfo) bool, lo int) int {
+		for i := len(p.ctxs) - 1; lo < i; i-- {
+			if pred(p.ctxs[i].kind) {
+				return i
+			}
+		}
+		return -3
+	}
+	switch {
+	case p.exit == "norm":
+		return -2, "normal"
+	case p.exit == "rf-a":
+		return find(func(k *kindInfo) bool { return k.name == "block-a" }, b), "return-from"
+	case p.exit == "rf-b":
+		return find(func(k *kindInfo) bool { return k.name == "block-b" }, b), "return-from"
+	case p.exit == "ret":
+		return find(func(k *kindInfo) bool { return k.name == "block-nil" || isLoop(k) }, b), "return"
+	case p.exit == "rf-fn":
+		if fi := fnIndex(p.ctxs); 0 <= fi {
+			return fi, "return-from-fn"
+		}
+		return -3, ""
+	case strings.HasPrefix(p.exit, "go-"):
+		body := p.exit[3:]
+		dir := body[len(body)-1]
+		n, err := strconv.Atoi(body[:len(body)-1])
+		if err != nil || n <= b || len(p.ctxs) <= n || !isTagbody(p.ctxs[n].kind) || (dir != 'f' && dir != 'b') {
+			return -3, ""
+		}
+		if dir == 'f' {
+			return n, "go-forward"
+		}
+		return n, "go-backward"
+	case strings.HasPrefix(p.exit, "err-"):
+		ok := false
+		for _, e := range errorExits {
+			ok = ok || e == p.exit
+		}
+		if !ok {
+			return -3, ""
+		}
+		i := find(func(k *kindInfo) bool { return k.name == "ignore-errors" || k.name == "recover" }, -1)
+		if i == -3 {
+			i = -1
+		}
+		return i, "error"
+	}
+	return -3, ""
+}
+
+func (p *program) spec() string {
+	var b strings.Builder
+	for i, c := range p.ctxs {
+		if 0 < i {
+			b.WriteByte('/')
+		}
+		b.WriteString(c.kind.name)
+		b.WriteByte('.')
+		b.WriteString(c.pos)
+	}
+	b.WriteByte('!')
+	b.WriteString(p.exit)
+	return b.String()
+}
+
+func parseSpec(spec string) (*program, error) {
+	bang := strings.LastIndexByte(spec, '!')
+	if bang < 0 {
+		return nil, fmt.Errorf("no exit in spec")
+	}
+	p := &program{exit: spec[bang+1:]}
+	if 0 < bang {
+		for _, part := range strings.Split(spec[:bang], "/") {
+			dot := strings.LastIndexByte(part, '.')
+			if dot < 0 {
+				return nil, fmt.Errorf("bad context %q", part)
+			}
+			k := kindByName[part[:dot]]
+			if k == nil {
+				return nil, fmt.Errorf("unknown kind %q", part[:dot])
+			}
+			okPos := false
+			for _, ps := range k.positions {
+				okPos = okPos || ps == part[dot+1:]
+			}
+			if !okPos {
+				return nil, fmt.Errorf("bad position %q for %s", part[dot+1:], k.name)
+			}
+			p.ctxs = append(p.ctxs, ctx{k, part[dot+1:]})
+		}
+	}
+	if !validNesting(p.ctxs) {
+		return nil, fmt.Errorf("defun-in needs a parent with a statement body")
+	}
+	if t, _ := target(p); t == -3 {
+		return nil, fmt.Errorf("exit %q is not valid here", p.exit)
+	}
+	return p, nil
+}
+
+// ---------------------------------------------------------------- enumeration
+
+type tierCfg struct {
+	fullDepth   int      // every position at every level
+	innerDepth  int      // up to this depth: outer levels at the canonical position, innermost level at every position
+	spineDepth  int      // up to this depth: every level at the canonical position, pairwise different kinds
+	deepErrs    []string // error classes used beyond fullDepth
+	spineKinds  []string // kinds used in spines ("" = all)
+	description string
+}
+
+func cfg(tier string) tierCfg {
+	if tier == engine.Thorough {
+		return tierCfg{fullDepth: 3, innerDepth: 4, spineDepth: 5, deepErrs: []string{"err-error", "err-div"},
+			spineKinds: []string{"block-a", "block-nil", "tagbody", "unwind-protect", "let", "when", "cond", "dolist", "do", "defun", "lambda",
+				"with-mutex-lock", "ignore-errors", "recover", "with-open-file"}}
+	}
+	return tierCfg{fullDepth: 2, innerDepth: 3, spineDepth: 0, deepErrs: []string{"err-error", "err-div"}}
+}
+
+func enumerate(tier string, emit func(string)) {
+	enumPrograms(tier, func(p *program) { emit(p.spec()) })
+}
+
+func enumPrograms(tier string, emit func(*program)) {
+	c := cfg(tier)
+	// depth 0: the bare exit at top level
+	for _, e := range validExits(nil, errorExits) {
+		emit(&program{exit: e})
+	}
+	var rec func(ctxs []ctx, depth int, mode string)
+	rec = func(ctxs []ctx, depth int, mode string) {
+		if len(ctxs) == depth {
+			errs := errorExits
+			if mode != "full" {
+				errs = c.deepErrs
+			}
+			for _, e := range validExits(ctxs, errs) {
+				emit(&program{ctxs: append([]ctx(nil), ctxs...), exit: e})
+			}
+			return
+		}
+		level := len(ctxs)
+		for i := range kinds {
+			k := &kinds[i]
+			positions := k.positions
+			if k.name == "tagbody-sym" && mode != "full" {
+				continue // symbol tags: only in the complete depths (see S9 note in judge)
+			}
+			switch mode {
+			case "inner":
+				if level < depth-1 {
+					positions = []string{canonPos(k)}
+				}
+			case "spine":
+				positions = []string{canonPos(k)}
+				use := len(c.spineKinds) == 0
+				for _, n := range c.spineKinds {
+					use = use || n == k.name
+				}
+				for _, prev := range ctxs {
+					use = use && prev.kind != k
+				}
+				if !use {
+					continue
+				}
+			}
+			for _, ps := range positions {
+				next := append(ctxs, ctx{k, ps})
+				if validNesting(next) {
+					rec(next, depth, mode)
+				}
+			}
+		}
+	}
+	// simplest first: by depth; the engine drops specs already emitted by a wider mode
+	maxDepth := c.fullDepth
+	if maxDepth < c.innerDepth {
+		maxDepth = c.innerDepth
+	}
+	if maxDepth < c.spineDepth {
+		maxDepth = c.spineDepth
+	}
+	for d := 1; d <= maxDepth; d++ {
+		switch {
+		case d <= c.fullDepth:
+			rec(nil, d, "full")
+		case d <= c.innerDepth:
+			rec(nil, d, "inner")
+		case d <= c.spineDepth:
+			rec(nil, d, "spine")
+		}
+	}
+}
+
+func bound(tier string) string {
+	c := cfg(tier)
+	s := fmt.Sprintf("%d context kinds (%s); complete to nesting depth %d with the slot at every position of every level and all exit kinds "+
+		"(normal, return-from a/b, return, return-from function, go forward/backward to every visible tagbody, 4 error classes)",
+		len(kinds), kindNames(), c.fullDepth)
+	if c.fullDepth < c.innerDepth {
+		s += fmt.Sprintf("; depth %d..%d with the outer levels at their canonical position (middle / protected form / then-branch), the innermost level at every position, error classes %v",
+			c.fullDepth+1, c.innerDepth, c.deepErrs)
+	}
+	if c.innerDepth < c.spineDepth {
+		s += fmt.Sprintf("; depth %d..%d for spines of pairwise different kinds out of %d kinds, all levels at the canonical position",
+			c.innerDepth+1, c.spineDepth, len(c.spineKinds))
+	}
+	return s
+}
+
+func kindNames() string {
+	var n []string
+	for _, k := range kinds {
+		n = append(n, k.name)
+	}
+	return strings.Join(n, " ")
+}
+
+// ---------------------------------------------------------------- program construction
+
+type marker struct {
+	owner int    // context index; len(ctxs) = the exit itself
+	role  string // pre post cleanup1 cleanup2 handler result other head tail skip x-normal x-after-loop
+}
+
+type built struct {
+	p        *program
+	forms    []eval.Node // top-level forms (defuns first, main form last)
+	markers  []marker    // by id
+	fnNames  []string
+	pending  []eval.Node // statements a child wants spliced in front of its slot
+	exitForm eval.Node
+	usesFile bool
+	path     string
+	unique   string
+}
+
+const exitValue = 9001
+
+func (b *built) mark(owner int, role string, withValue bool) eval.Node {
+	id := len(b.markers)
+	b.markers = append(b.markers, marker{owner, role})
+	if withValue {
+		return eval.L(eval.Sym("tr"), eval.Int(id), eval.Int(1000+id))
+	}
+	return eval.L(eval.Sym("tr"), eval.Int(id))
+}
+
+func lv(prefix string, level int) eval.Sym { return eval.Sym(prefix + strconv.Itoa(level+1)) }
+
+func tagOf(k *kindInfo, level int, second bool) eval.Node {
+	n := 10*(level+1) + 1
+	if second {
+		n++
+	}
+	if k.name == "tagbody-sym" {
+		return eval.Sym("tg" + strconv.Itoa(n))
+	}
+	return eval.Int(n)
+}
+
+func (b *built) exitNode() eval.Node {
+	p := b.p
+	n := len(p.ctxs)
+	switch p.exit {
+	case "norm":
+		return b.mark(n, "x-normal", true)
+	case "rf-a":
+		return eval.L(eval.Sym("return-from"), eval.Sym("a"), b.exitValueForm())
+	case "rf-b":
+		return eval.L(eval.Sym("return-from"), eval.Sym("b"), b.exitValueForm())
+	case "ret":
+		return eval.L(eval.Sym("return"), b.exitValueForm())
+	case "rf-fn":
+		return eval.L(eval.Sym("return-from"), eval.Sym(b.fnName(fnIndex(p.ctxs))), b.exitValueForm())
+	case "err-error":
+		return eval.L(eval.Sym("error"), eval.Str("boom"))
+	case "err-div":
+		return eval.L(eval.Sym("/"), eval.Int(1), eval.Int(0))
+	case "err-unbound":
+		return eval.L(eval.Sym("list"), eval.Sym("c07-never-bound"))
+	case "err-type":
+		return eval.L(eval.Sym("car"), eval.Int(5))
+	}
+	t, sig := target(p)
+	k := p.ctxs[t].kind
+	if sig == "go-forward" {
+		return eval.L(eval.Sym("go"), tagOf(k, t, true))
+	}
+	// backward: bounded by the pass counter of the target tagbody
+	return eval.L(eval.Sym("if"), eval.L(eval.Sym("<"), lv("n", t), eval.Int(2)),
+		eval.L(eval.Sym("go"), tagOf(k, t, false)),
+		b.mark(n, "x-after-loop", true))
+}
+
+// exitValueForm is the value form of a return: a trace leaf, so that the
+// trace also shows that it is evaluated exactly once.
+func (b *built) exitValueForm() eval.Node {
+	id := len(b.markers)
+	b.markers = append(b.markers, marker{len(b.p.ctxs), "x-value"})
+	return eval.L(eval.Sym("tr"), eval.Int(id), eval.Int(exitValue))
+}
+
+func (b *built) fnName(level int) string {
+	return fmt.Sprintf("c07fn-%s-%d", b.unique, level+1)
+}
+
+// body lays out the statements of a body around the slot of context `level`.
+func (b *built) body(level int) []eval.Node {
+	c := b.p.ctxs[level]
+	var stmts []eval.Node
+	pos := c.pos
+	later := strings.HasSuffix(pos, "2")
+	if later {
+		pos = pos[:1]
+	}
+	if pos != "f" {
+		stmts = append(stmts, b.mark(level, "pre", false))
+	}
+	if later {
+		second := 1
+		if c.kind.name == "dolist" {
+			second = 2
+		}
+		// build the slot before the skip marker so that ids follow the text
+		slot := b.build(level + 1)
+		stmts = append(stmts, eval.L(eval.Sym("if"), eval.L(eval.Sym("eql"), lv("i", level), eval.Int(second)), slot, b.mark(level, "skip", true)))
+	} else {
+		slot := b.build(level + 1)
+		stmts = append(stmts, b.pending...) // a defun-in child: its definition goes right before the call
+		b.pending = nil
+		stmts = append(stmts, slot)
+	}
+	if pos != "l" {
+		stmts = append(stmts, b.mark(level, "post", true))
+	}
+	return stmts
+}
+
+func form(head string, rest ...eval.Node) eval.List {
+	return append(eval.List{eval.Sym(head)}, rest...)
+}
+
+// build returns the form of context `level` (or the exit when past the last).
+func (b *built) build(level int) eval.Node {
+	if level == len(b.p.ctxs) {
+		b.exitForm = b.exitNode()
+		return b.exitForm
+	}
+	c := b.p.ctxs[level]
+	switch c.kind.name {
+	case "block-a":
+		return form("block", append([]eval.Node{eval.Sym("a")}, b.body(level)...)...)
+	case "block-b":
+		return form("block", append([]eval.Node{eval.Sym("b")}, b.body(level)...)...)
+	case "block-nil":
+		return form("block", append([]eval.Node{nil}, b.body(level)...)...)
+	case "tagbody", "tagbody-sym":
+		stmts := []eval.Node{b.mark(level, "head", false), tagOf(c.kind, level, false),
+			eval.L(eval.Sym("setq"), lv("n", level), eval.L(eval.Sym("+"), lv("n", level), eval.Int(1)))}
+		stmts = append(stmts, b.body(level)...)
+		stmts = append(stmts, tagOf(c.kind, level, true), b.mark(level, "tail", false))
+		return form("tagbody", stmts...)
+	case "unwind-protect":
+		slot := b.build(level + 1)
+		return form("unwind-protect", slot, b.mark(level, "cleanup1", false), b.mark(level, "cleanup2", false))
+	case "let":
+		return form("let", append([]eval.Node{eval.L(eval.L(lv("v", level), eval.Int(1)))}, b.body(level)...)...)
+	case "let*":
+		return form("let*", append([]eval.Node{eval.L(eval.L(lv("v", level), eval.Int(1)), eval.L(lv("w", level), lv("v", level)))}, b.body(level)...)...)
+	case "progn":
+		return form("progn", b.body(level)...)
+	case "when":
+		return form("when", append([]eval.Node{eval.Sym("t")}, b.body(level)...)...)
+	case "unless":
+		return form("unless", append([]eval.Node{nil}, b.body(level)...)...)
+	case "cond":
+		first := eval.L(nil, b.mark(level, "other", true))
+		second := append(eval.List{eval.Sym("t")}, b.body(level)...)
+		third := eval.L(eval.Sym("t"), b.mark(level, "other", true))
+		return form("cond", first, second, third)
+	case "if":
+		if c.pos == "t" {
+			slot := b.build(level + 1)
+			return form("if", eval.Sym("t"), slot, b.mark(level, "other", true))
+		}
+		other := b.mark(level, "other", true)
+		return form("if", nil, other, b.build(level+1))
+	case "dolist":
+		body := b.body(level)
+		head := eval.L(lv("i", level), eval.Q(eval.L(eval.Int(1), eval.Int(2))), b.mark(level, "result", true))
+		return form("dolist", append([]eval.Node{head}, body...)...)
+	case "dotimes":
+		body := b.body(level)
+		head := eval.L(lv("i", level), eval.Int(2), b.mark(level, "result", true))
+		return form("dotimes", append([]eval.Node{head}, body...)...)
+	case "do":
+		body := b.body(level)
+		vars := eval.L(eval.L(lv("i", level), eval.Int(0), eval.L(eval.Sym("+"), lv("i", level), eval.Int(1))))
+		end := eval.L(eval.L(eval.Sym(">="), lv("i", level), eval.Int(2)), b.mark(level, "result", true))
+		return form("do", append([]eval.Node{vars, end}, body...)...)
+	case "defun":
+		name := b.fnName(level)
+		b.fnNames = append(b.fnNames, name)
+		def := form("defun", append([]eval.Node{eval.Sym(name), nil}, b.body(level)...)...)
+		b.forms = append(b.forms, def)
+		return eval.L(eval.Sym(name))
+	case "defun-in":
+		name := b.fnName(level)
+		b.fnNames = append(b.fnNames, name)
+		def := form("defun", append([]eval.Node{eval.Sym(name), nil}, b.body(level)...)...)
+		b.pending = append(b.pending, def)
+		return eval.L(eval.Sym(name))
+	case "lambda":
+		lam := form("lambda", append([]eval.Node{eval.L(lv("z", level))}, b.body(level)...)...)
+		return eval.L(eval.Sym("funcall"), lam, eval.Int(0))
+	case "with-mutex-lock":
+		return form("with-mutex-lock", append([]eval.Node{lv("mx", level)}, b.body(level)...)...)
+	case "ignore-errors":
+		return form("ignore-errors", b.body(level)...)
+	case "recover":
+		h := b.mark(level, "handler", true)
+		return form("recover", append([]eval.Node{lv("rc", level), h}, b.body(level)...)...)
+	case "with-open-file":
+		b.usesFile = true
+		head := eval.L(lv("fs", level), eval.Str(b.path), eval.Sym(":direction"), eval.Sym(":input"))
+		keep := eval.L(eval.Sym("setq"), lv("keep", level), lv("fs", level))
+		return form("with-open-file", append([]eval.Node{head, keep}, b.body(level)...)...)
+	}
+	panic("unknown kind " + c.kind.name)
+}
+
+var (
+	caseCounter atomic.Int64
+	scratchOnce sync.Once
+	scratchDir  string
+)
+
+func scratch() string {
+	scratchOnce.Do(func() {
+		scratchDir = filepath.Join(engine.ScratchDir, "C07", strconv.Itoa(os.Getpid()))
+	})
+	return scratchDir
+}
+
+func buildProgram(p *program, unique string) *built {
+	b := &built{p: p, unique: unique, path: filepath.Join(scratch(), "in.txt")}
+	main := b.build(0)
+	b.forms = append(b.forms, main)
+	return b
+}
+
+// ---------------------------------------------------------------- reference run
+
+type expectation struct {
+	out        eval.Outcome
+	mutexHeld  []bool // per level
+	streamOpen bool
+}
+
+func runRef(b *built, m eval.Mutations) expectation {
+	in := eval.New(m)
+	n := len(b.p.ctxs)
+	mx := make([]*eval.Mutex, n)
+	for i := 0; i < n; i++ {
+		in.SetGlobal(string(lv("n", i)), int64(0))
+		in.SetGlobal(string(lv("keep", i)), nil)
+		mx[i] = in.NewMutex(string(lv("mx", i)))
+		in.SetGlobal(string(lv("mx", i)), mx[i])
+	}
+	ex := expectation{out: in.Run(b.forms), mutexHeld: make([]bool, n)}
+	for i := range mx {
+		ex.mutexHeld[i] = mx[i].Locked
+	}
+	for _, s := range in.Streams {
+		ex.streamOpen = ex.streamOpen || s.Open
+	}
+	return ex
+}
+
+func (ex *expectation) digest() string {
+	return fmt.Sprintf("%s|%s|%s|%v|%v", eval.Show(ex.out.Value), ex.out.ErrClass, strings.Join(ex.out.Trace, ","), ex.mutexHeld, ex.streamOpen)
+}
+
+// ---------------------------------------------------------------- exec
+
 func exec(spec string) (res engine.Result) {
-	if strings.HasPrefix(spec, "raw:") {
+	if strings.HasPrefix(spec, "raw:") { // development aid: run Lisp text as is
 		v, tr, err := lisp.Run(spec[4:])
 		res.Outcome = "val=" + v + " trace=" + strings.Join(tr, ",") + " err=" + err.String()
 		return
 	}
-	if strings.HasPrefix(spec, "rawv:") {
-		sc := slip.NewScope()
-		sc.Let("n1", slip.Fixnum(41))
-		lisp.ResetTrace()
-		v, err := lisp.EvalIn(sc, spec[5:])
-		res.Outcome = "val=" + lisp.Show(v) + " trace=" + strings.Join(lisp.Trace(), ",") + " err=" + err.String()
+	if strings.HasPrefix(spec, "time:") { // development aid: wall time of 2000 executions
+		p, perr := parseSpec(spec[5:])
+		if perr != nil {
+			res.Fail("harness:bad-spec", spec)
+			return
+		}
+		t0 := time.Now()
+		for i := 0; i < 2000; i++ {
+			execProgram(p, true)
+		}
+		res.Outcome = fmt.Sprintf("%v per case", time.Since(t0)/2000)
 		return
+	}
+	p, perr := parseSpec(spec)
+	if perr != nil {
+		res.Fail("harness:bad-spec", spec+": "+perr.Error())
+		return
+	}
+	return execProgram(p, true)
+}
+
+// execProgram runs one program on slip and judges it. With reduce set, a
+// "continues" verdict that names a form which merely *contains* the sub-chain
+// holding the exit is re-examined on the shorter program [target, sub-chain]:
+// if that one fails too, the defect sits below the named form and the shorter
+// program's verdict is reported instead (so a signature names the smallest
+// nesting that shows the failure).
+func execProgram(p *program, reduce bool) (res engine.Result) {
+	spec := p.spec()
+	unique := fmt.Sprintf("%d-%d", os.Getpid(), caseCounter.Add(1))
+	b := buildProgram(p, unique)
+	ex := runRef(b, eval.Mutations{})
+	if ex.out.Budget || ex.out.Deadlock {
+		res.Fail("harness:reference-did-not-finish", spec)
+		return
+	}
+	src := eval.RenderAll(b.forms)
+	tgt, exitSig := target(p)
+	n := len(p.ctxs)
+
+	// vacuity counters and the non-triviality rule
+	crossed := 0
+	if p.exit != "norm" {
+		crossed = n - 1 - tgt // contexts strictly inside the target
+		if tgt == -1 {
+			crossed = n
+		}
+	}
+	if 1 <= crossed {
+		res.Nontrivial = true
+		res.Hit("exit-crossed>=1-form")
+	}
+	if 2 <= crossed {
+		res.Hit("exit-crossed>=2-forms")
+	}
+	if p.exit != "norm" {
+		ups := 0
+		for i := n - 1; tgt < i && 0 <= i; i-- {
+			switch p.ctxs[i].kind.name {
+			case "unwind-protect":
+				ups++
+				switch exitSig {
+				case "return-from", "return", "return-from-fn":
+					res.Hit("cleanup-on-return")
+				case "go-forward", "go-backward":
+					res.Hit("cleanup-on-go")
+				case "error":
+					res.Hit("cleanup-on-error")
+				}
+			case "with-mutex-lock":
+				res.Hit("mutex-on-exit-path")
+			case "with-open-file":
+				res.Hit("stream-on-exit-path")
+			case "defun", "lambda", "defun-in":
+				res.Hit("exit-through-function")
+			}
+			if strings.HasSuffix(p.ctxs[i].pos, "2") {
+				res.Hit("exit-on-later-iteration")
+			}
+		}
+		if 2 <= ups {
+			res.Hit("cleanup-nested>=2")
+		}
+		switch exitSig {
+		case "go-forward":
+			res.Hit("go-forward")
+		case "go-backward":
+			res.Hit("go-backward")
+		case "error":
+			if tgt == -1 {
+				res.Hit("error-unhandled")
+			} else {
+				res.Hit("error-handled")
+			}
+		case "return-from", "return":
+			for i := tgt - 1; 0 <= i; i-- {
+				same := p.ctxs[i].kind.name == p.ctxs[tgt].kind.name
+				if exitSig == "return" {
+					same = p.ctxs[i].kind.name == "block-nil" || isLoop(p.ctxs[i].kind)
+				}
+				if same {
+					res.Hit("return-shadowed-block")
+					break
+				}
+			}
+		}
+	}
+
+	// the class slip itself gives the bare error form
+	origClass := ""
+	if exitSig == "error" {
+		_, berr := lisp.Eval(eval.Render(b.exitForm))
+		if berr == nil || berr.Class == "" || berr.GoFault {
+			res.Fail("harness:bare-error-form", fmt.Sprintf("%s alone gave %v", eval.Render(b.exitForm), berr))
+			return
+		}
+		origClass = berr.Class
+	}
+
+	// environment
+	scope := slip.NewScope()
+	for i := 0; i < n; i++ {
+		scope.Let(slip.Symbol(lv("n", i)), slip.Fixnum(0))
+		scope.Let(slip.Symbol(lv("keep", i)), nil)
+		scope.Let(slip.Symbol(lv("mx", i)), (*gi.Mutex)(&sync.Mutex{}))
+	}
+	if b.usesFile {
+		_ = os.MkdirAll(scratch(), 0o755)
+		if err := os.WriteFile(b.path, []byte("c07\n"), 0o644); err != nil {
+			res.Fail("harness:scratch-file", err.Error())
+			return
+		}
+		defer os.RemoveAll(scratch())
+	}
+	defer func() {
+		for _, name := range b.fnNames {
+			_, _ = lisp.Eval("(fmakunbound '" + name + ")")
+		}
+	}()
+
+	lisp.ResetTrace()
+	val, err := lisp.EvalIn(scope, src)
+	trace := lisp.Trace()
+
+	o := &observation{val: val, err: err, trace: trace}
+	blamed := judge(&res, b, &ex, o, tgt, exitSig, origClass, src)
+	if reduce && 0 <= blamed && blamed < n-1 {
+		if rp := reduced(p, tgt, blamed); rp != nil {
+			if rr := execProgram(rp, true); 0 < len(rr.Failures) {
+				res.Failures = res.Failures[:0]
+				for _, f := range rr.Failures {
+					if !strings.HasPrefix(f.Sig, "harness:") {
+						res.Fail(f.Sig, "reduced from "+spec+" to "+rp.spec()+"\n"+f.Detail)
+					}
+				}
+			}
+		}
+	}
+
+	// resources, whatever happened above
+	for i := 0; i < n; i++ {
+		switch p.ctxs[i].kind.name {
+		case "with-mutex-lock":
+			m, _ := scope.Get(slip.Symbol(lv("mx", i))).(*gi.Mutex)
+			if m == nil {
+				res.Fail("harness:mutex-variable-lost", src)
+				continue
+			}
+			free := (*sync.Mutex)(m).TryLock()
+			if free {
+				(*sync.Mutex)(m).Unlock()
+			}
+			if free == ex.mutexHeld[i] {
+				res.Fail(resourceSig(p, exitSig, tgt, "mutex-held"),
+					fmt.Sprintf("%s\nmutex of with-mutex-lock at level %d: free=%v, the reference says held=%v", src, i+1, free, ex.mutexHeld[i]))
+			}
+		case "with-open-file":
+			fs, _ := scope.Get(slip.Symbol(lv("keep", i))).(*slip.FileStream)
+			if fs == nil {
+				continue // the body was never entered (compared through the trace)
+			}
+			_, serr := (*os.File)(fs).Stat()
+			closed := serr != nil && errors.Is(serr, os.ErrClosed)
+			if !closed {
+				_ = (*os.File)(fs).Close()
+				if !ex.streamOpen {
+					res.Fail(resourceSig(p, exitSig, tgt, "stream-open"),
+						fmt.Sprintf("%s\nstream of with-open-file at level %d is still open after the program", src, i+1))
+				}
+			}
+		}
+	}
+	res.Outcome = o.digest()
+	return
+}
+
+func resourceSig(p *program, exitSig string, tgt int, kind string) string {
+	if hasSymTags(p) {
+		return "ctx=tagbody-sym exit=" + exitSig + " kind=" + kind
+	}
+	return fmt.Sprintf("exit=%s target=%s kind=%s", exitSig, targetName(p, tgt), kind)
+}
+
+// reduced builds [target at its canonical position] + ctxs[blamed+1:] with the
+// same exit (a go is re-aimed at the new root).
+func reduced(p *program, tgt, blamed int) *program {
+	rp := &program{exit: p.exit}
+	if 0 <= tgt {
+		rp.ctxs = append(rp.ctxs, ctx{p.ctxs[tgt].kind, canonPos(p.ctxs[tgt].kind)})
+	}
+	rp.ctxs = append(rp.ctxs, p.ctxs[blamed+1:]...)
+	if strings.HasPrefix(p.exit, "go-") {
+		rp.exit = "go-0" + p.exit[len(p.exit)-1:]
+	}
+	if len(p.ctxs) <= len(rp.ctxs) {
+		return nil
+	}
+	if t, _ := target(rp); t == -3 {
+		return nil
+	}
+	return rp
+}
+
+type observation struct {
+	val   slip.Object
+	err   *lisp.Err
+	trace []string
+}
+
+func (o *observation) digest() string {
+	if o.err != nil {
+		return "err:" + o.err.Class + "|" + strings.Join(o.trace, ",")
+	}
+	return lisp.Show(o.val) + "|" + strings.Join(o.trace, ",")
+}
+
+func targetName(p *program, tgt int) string {
+	switch {
+	case tgt == -2:
+		return "-"
+	case tgt == -1:
+		return "toplevel"
+	}
+	return p.ctxs[tgt].kind.sig
+}
+
+// markerInfo resolves a trace key to its marker (ok=false: not one of ours).
+func markerInfo(b *built, key string) (m marker, ok bool) {
+	id, err := strconv.Atoi(key)
+	if err != nil || id < 0 || len(b.markers) <= id {
+		return marker{}, false
+	}
+	return b.markers[id], true
+}
+
+// relation of a marker's owner to the exit path: inner = a form the exit must
+// abandon, target = the form control is transferred to, outer = around it.
+func relation(b *built, m marker, tgt int) string {
+	switch {
+	case m.owner == len(b.p.ctxs):
+		return "exit"
+	case tgt == -2:
+		return "-"
+	case tgt < m.owner:
+		return "inner"
+	case tgt == m.owner:
+		return "target"
+	}
+	return "outer"
+}
+
+func ownerName(b *built, m marker) string {
+	if m.owner == len(b.p.ctxs) {
+		return "exit"
+	}
+	return b.p.ctxs[m.owner].kind.sig
+}
+
+// where names a marker in full: <kind>.<role>/<relation>.
+func where(b *built, key string, tgt int) string {
+	m, ok := markerInfo(b, key)
+	if !ok {
+		return "unknown-marker"
+	}
+	return ownerName(b, m) + "." + m.role + "/" + relation(b, m, tgt)
+}
+
+// wantClass abstracts the marker that should have come next.
+func wantClass(b *built, key string, tgt int) string {
+	m, ok := markerInfo(b, key)
+	if !ok {
+		return "unknown"
+	}
+	switch m.role {
+	case "cleanup1", "cleanup2":
+		return "cleanup"
+	case "handler", "result", "tail":
+		return m.role
+	}
+	switch relation(b, m, tgt) {
+	case "inner", "target", "exit":
+		return "re-entry" // something inside the target runs again (after a backward go / next iteration)
+	case "outer":
+		return "continuation" // what follows the target
+	}
+	return "body"
+}
+
+func hasSymTags(p *program) bool {
+	for _, c := range p.ctxs {
+		if c.kind.name == "tagbody-sym" {
+			return true
+		}
+	}
+	return false
+}
+
+// judge compares observation and expectation. It returns the index of the
+// context blamed by a "continues" verdict (-1 otherwise).
+func judge(res *engine.Result, b *built, ex *expectation, o *observation, tgt int, exitSig, origClass, src string) (blamed int) {
+	blamed = -1
+	p := b.p
+	prefix := fmt.Sprintf("exit=%s target=%s ", exitSig, targetName(p, tgt))
+	coarse := hasSymTags(p)
+	fail := func(kind, rest, detail string) {
+		if coarse {
+			// S9: symbol tags are a listed finding on the pinned tree (a tag reached by falling
+			// through is evaluated as a variable); every other kind is covered with integer tags,
+			// so programs holding a tagbody-sym get one coarse signature per (exit, kind).
+			res.Fail("ctx=tagbody-sym exit="+exitSig+" kind="+kind, detail)
+			return
+		}
+		if rest != "" {
+			rest = " " + rest
+		}
+		res.Fail(prefix+"kind="+kind+rest, detail)
+	}
+	expTrace := strings.Join(ex.out.Trace, ",")
+	obsTrace := strings.Join(o.trace, ",")
+	expVal := eval.Show(ex.out.Value)
+	detail := func(what string) string {
+		expE, obsE := "-", "-"
+		if ex.out.ErrClass != "" {
+			expE = ex.out.ErrClass
+			if origClass != "" {
+				expE = origClass
+			}
+		}
+		if o.err != nil {
+			obsE = o.err.String()
+		}
+		obsV := "-"
+		if o.err == nil {
+			obsV = lisp.Show(o.val)
+		}
+		ev := expVal
+		if ex.out.ErrClass != "" {
+			ev = "-"
+		}
+		return fmt.Sprintf("%s\n%s\nexpected: value %s, trace [%s], condition %s\nobserved: value %s, trace [%s], condition %s\nmarkers: %s",
+			what, src, ev, expTrace, expE, obsV, obsTrace, obsE, describeMarkers(b))
+	}
+	if o.err != nil && o.err.GoFault {
+		fail("go-fault", "", detail("Go runtime fault: "+o.err.Message))
+		return
+	}
+	// first divergence of the traces
+	i := 0
+	for i < len(ex.out.Trace) && i < len(o.trace) && ex.out.Trace[i] == o.trace[i] {
+		i++
+	}
+	if i < len(ex.out.Trace) || i < len(o.trace) {
+		want := "end"
+		if i < len(ex.out.Trace) {
+			want = wantClass(b, ex.out.Trace[i], tgt)
+		}
+		expectedErr := ex.out.ErrClass != "" && o.err != nil && origClass == o.err.Class
+		switch {
+		case i < len(o.trace):
+			m, ok := markerInfo(b, o.trace[i])
+			what := fmt.Sprintf("trace diverges at position %d: marker %s ran, expected %s", i, o.trace[i], elemOr(ex.out.Trace, i, "the end"))
+			switch rel := relation(b, m, tgt); {
+			case !ok:
+				fail("trace", "got=unknown-marker", detail(what))
+			case rel == "inner":
+				// a form that the exit must abandon carried on (the target kind does not matter)
+				blamed = m.owner
+				if coarse {
+					fail("continues", "", detail(what))
+				} else {
+					res.Fail("exit="+exitSig+" kind=continues at="+ownerName(b, m)+"."+m.role, detail(what))
+				}
+			case rel == "-":
+				fail("trace", "got="+ownerName(b, m)+"."+m.role+" want="+want, detail(what))
+			default:
+				fail("skipped", "want="+want, detail(what))
+			}
+		case o.err != nil && !expectedErr:
+			after := "start"
+			if 0 < i {
+				after = where(b, o.trace[i-1], tgt)
+			}
+			fail("unexpected-error", "class="+o.err.Class+" after="+after+" want="+want,
+				detail(fmt.Sprintf("the program stopped with %s after %d markers, expected marker %s next", o.err.Class, i, ex.out.Trace[i])))
+		default:
+			fail("skipped", "want="+want, detail(fmt.Sprintf("trace ends after %d markers, expected marker %s next", i, ex.out.Trace[i])))
+		}
+		return
+	}
+	// same trace: condition
+	switch {
+	case ex.out.ErrClass != "" && o.err == nil:
+		fail("error-lost", "", detail("an unhandled error was expected, the program returned a value"))
+		return
+	case ex.out.ErrClass == "" && o.err != nil:
+		fail("unexpected-error", "class="+o.err.Class+" after=all-markers want=value", detail("the program signalled an error, a value was expected"))
+		return
+	case ex.out.ErrClass != "" && o.err != nil:
+		if o.err.Class != origClass {
+			fail("condition-class", "want="+origClass+" got="+o.err.Class, detail("the error surfaced with another condition class"))
+		}
+		return
+	}
+	// same trace, both returned: value
+	if ex.out.Value == eval.Wild {
+		return
+	}
+	if got := lisp.Show(o.val); got != expVal {
+		fail("value", "want="+valueClass(b, expVal, tgt)+" got="+valueClass(b, got, tgt), detail("wrong value"))
+	}
+	return
+}
+
+func elemOr(l []string, i int, alt string) string {
+	if i < len(l) {
+		return l[i]
+	}
+	return alt
+}
+
+// valueClass abstracts a rendered value for signatures.
+func valueClass(b *built, v string, tgt int) string {
+	switch {
+	case v == strconv.Itoa(exitValue):
+		return "exit-value"
+	case v == "nil":
+		return "nil"
+	case v == "#<t>":
+		return "exit-object" // a ReturnResult / GoTo leaked as a value
+	}
+	if n, err := strconv.Atoi(v); err == nil && 1000 <= n && n < 1000+len(b.markers) {
+		return "value-of:" + where(b, strconv.Itoa(n-1000), tgt)
+	}
+	if strings.HasPrefix(v, "#values(") {
+		return "multiple-values"
+	}
+	return "other"
+}
+
+func describeMarkers(b *built) string {
+	var s []string
+	for id, m := range b.markers {
+		owner := "exit"
+		if m.owner < len(b.p.ctxs) {
+			owner = fmt.Sprintf("%s@%d", b.p.ctxs[m.owner].kind.name, m.owner+1)
+		}
+		s = append(s, fmt.Sprintf("%d=%s.%s", id, owner, m.role))
+	}
+	return strings.Join(s, " ")
+}
+
+// ---------------------------------------------------------------- self-test (S6)
+
+func selftest(tier string) (killed, total int, notes []string) {
+	mutants := []struct {
+		name string
+		m    eval.Mutations
+	}{
+		{"when/unless/cond bodies swallow an exit and carry on", eval.Mutations{BodyIgnoresExit: true}},
+		{"unwind-protect cleanup runs twice on an error", eval.Mutations{CleanupTwiceOnError: true}},
+		{"unwind-protect cleanup skipped when left by go", eval.Mutations{CleanupSkippedOnGo: true}},
+		{"cleanups run outermost first on return-from", eval.Mutations{CleanupOuterFirst: true}},
+		{"return-from picks the outermost block of that name", eval.Mutations{OutermostBlock: true}},
+		{"return out of a loop yields nil", eval.Mutations{LoopReturnNil: true}},
+		{"with-mutex-lock keeps the mutex on an error", eval.Mutations{MutexKeptOnError: true}},
+		{"with-open-file keeps the stream open on return-from/go", eval.Mutations{StreamKeptOnExit: true}},
+		{"error class lost when unwinding through unwind-protect", eval.Mutations{ErrorClassLost: true}},
+		{"backward go ends the tagbody", eval.Mutations{GoBackwardIgnored: true}},
+	}
+	total = len(mutants)
+	alive := make([]bool, total)
+	for i := range alive {
+		alive[i] = true
+	}
+	left := total
+	cases := 0
+	done := errors.New("done")
+	func() {
+		defer func() {
+			if r := recover(); r != nil && r != done {
+				panic(r)
+			}
+		}()
+		enumPrograms(tier, func(p *program) {
+			cases++
+			b := buildProgram(p, "st")
+			ref := runRef(b, eval.Mutations{})
+			d := ref.digest()
+			for i, mu := range mutants {
+				if !alive[i] {
+					continue
+				}
+				if got := runRef(b, mu.m); got.digest() != d {
+					alive[i] = false
+					left--
+					killed++
+					notes = append(notes, fmt.Sprintf("killed: %s — first distinguishing case #%d %s", mu.name, cases, p.spec()))
+				}
+			}
+			if left == 0 {
+				panic(done)
+			}
+		})
+	}()
+	for i, mu := range mutants {
+		if alive[i] {
+			notes = append(notes, "SURVIVED: "+mu.name)
+		}
 	}
 	return
 }
